@@ -168,6 +168,10 @@ func mathMod(L *LState) int {
 
 func mathModf(L *LState) int {
 	v1, v2 := math.Modf(float64(L.CheckNumber(1)))
+	if math.IsInf(v1, 0) {
+		// C modf: the fractional part of +-inf is +-0, not NaN
+		v2 = math.Copysign(0, v1)
+	}
 	L.Push(LNumber(v1))
 	L.Push(LNumber(v2))
 	return 2
